@@ -222,7 +222,7 @@ def random_hist_items(seed, count, max_ops=30):
 # seeded random model trees (the code -> spec direction goes far beyond TLC's bound)
 # ------------------------------------------------------------------------------------------------
 KEYS = [[0, v] for v in range(-2, 6)] + [[1, v] for v in range(0, 9)] + [[2, v] for v in range(-1, 3)] + \
-       [[3, v] for v in range(1, 4)] + [[4, v] for v in range(1, 4)] + [[5, v] for v in range(1, 3)] + [[6, v] for v in range(0, 6)]
+       [[3, v] for v in range(1, 4)] + [[4, v] for v in range(1, 4)] + [[5, v] for v in range(1, 3)] + [[6, v] for v in range(0, 6)] + [[7, v] for v in range(0, 6)]
 
 
 class Gen:
@@ -239,8 +239,19 @@ class Gen:
     def keys(self, n):
         r = self.rng
         style = r.random()
+        if n >= 5 and style < 0.35:
+            # directed: >= 3 sortable keys in random order plus two unorderable keys of ONE class - both sorts of the engine fail,
+            # the first one only after it has already moved elements: the documented result is the insertion order
+            srt = r.choice([[k for k in KEYS if k[0] == 0], [k for k in KEYS if k[0] in (0, 2)], [k for k in KEYS if k[0] == 1],
+                            [k for k in KEYS if k[0] in (0, 1)]])
+            ks = r.sample(srt, n - 2)
+            pos = sorted(r.sample(range(2, n + 1), 2)) if r.random() < 0.7 else sorted(r.sample(range(n + 1), 2))
+            out = list(ks)
+            for j, p_ in enumerate(pos):
+                out.insert(min(p_, len(out)), [4, j + 1])
+            return [list(k) for k in out]
         if style < 0.45:      # one comparable class
-            ty = r.choice([0, 1, 3, 5, 6, 6])
+            ty = r.choice([0, 1, 3, 5, 6, 6, 7])
             pool = [k for k in KEYS if k[0] == ty]
         elif style < 0.6:     # numbers: int and float mixed
             pool = [k for k in KEYS if k[0] in (0, 2)]
@@ -273,7 +284,7 @@ class Gen:
             n = {21: 2, 22: 5}[cls]
         else:
             cls = 0
-            n = r.choice([0, 1, 1, 2, 2, 3, 4, 6])
+            n = r.choice([0, 1, 1, 2, 2, 3, 4, 5, 6])
         n = min(n, max(budget - 1, 0)) if k not in ('nt', 'ss') else n
         kids, used = [], 1
         rem = budget - 1
